@@ -58,6 +58,12 @@ impl HolePunch {
             });
         }
 
+        #[cfg(feature = "verif")]
+        crate::verif::emit(&crate::verif::Event::Punch {
+            off: start,
+            len: length,
+        });
+
         Ok(())
     }
 
